@@ -45,7 +45,7 @@ class FuncError(ValueError):
     pass
 
 
-def scenario(d1, d2, dur, fail0, use_wait, cancel, own_first, prio_idx, p1, q1=0, nforeign=1):
+def scenario(d1, d2, dur, fail0, use_wait, cancel, own_first, prio_idx, p1, q1=0, nforeign=1, p2=0, tail=0, blk=0, single=False):
     """Loop thread L owns the buffer (timeout T) and optionally submits one argument itself at t=0;
     foreign thread F submits 100 after d1 and 101 after a further d2, then (use_wait) calls
     wait_from_anywhere(cancel=cancel) from its own loop; a second foreign thread G (nforeign=2) submits 200 at d2."""
@@ -56,7 +56,7 @@ def scenario(d1, d2, dur, fail0, use_wait, cancel, own_first, prio_idx, p1, q1=0
     except Exception:  # noqa
         pass
     nth = 1 + nforeign
-    W = vt.World(prio=vt.permutation(nth, pick(prio_idx, [1, 1, 2, 6][nth])), preempts=[(p1, q1)], max_steps=8000, trace=not tracing())
+    W = vt.World(prio=vt.permutation(nth, pick(prio_idx, [1, 1, 2, 6][nth])), preempts=[(p1, q1), (p2, 0)], max_steps=8000, trace=not tracing())
     L = simloop.SimLoop('L', W)
     FL = simloop.SimLoop('F', W)
     inv = []
@@ -76,6 +76,12 @@ def scenario(d1, d2, dur, fail0, use_wait, cancel, own_first, prio_idx, p1, q1=0
         try:
             if dur > 0:
                 await aio.sleep(dur)
+            if n == 0 and tail > 0:
+                # the loop thread is busy with synchronous work: first the tail of this call, then an unrelated callback that was
+                # queued before anything a foreign thread submits during the tail
+                if gate[0] is not None and not gate[0].done():
+                    gate[0].set_result(None)
+                await vt.Tok('sleep', W.now + tail)
         finally:
             running[0] -= 1
             if not frozen:
@@ -86,6 +92,11 @@ def scenario(d1, d2, dur, fail0, use_wait, cancel, own_first, prio_idx, p1, q1=0
         rec['ok'] = True
 
     ready = {'b': None}
+    gate = [None]
+
+    async def busy():
+        await gate[0]
+        await vt.Tok('sleep', W.now + blk)      # a token inside a task step blocks the whole loop thread: synchronous work
 
     async def loop_thread():
         aio.set_event_loop(L)
@@ -93,6 +104,9 @@ def scenario(d1, d2, dur, fail0, use_wait, cancel, own_first, prio_idx, p1, q1=0
         async def main():
             b = M.BufferAsyncCalls(f, timeout=T)
             ready['b'] = b
+            if blk > 0:
+                gate[0] = aio.get_running_loop().create_future()
+                aio.get_running_loop().create_task(busy())
             if own_first:
                 subs.append((W.now, 0, 'own'))
                 await vt.call(b, 0)
@@ -115,8 +129,9 @@ def scenario(d1, d2, dur, fail0, use_wait, cancel, own_first, prio_idx, p1, q1=0
         await vt.call(b, 100)
         if d2 > 0:
             await vt.Tok('sleep', W.now + d2)
-        subs.append((W.now, 101, 'foreign'))
-        await vt.call(b.map, [101])
+        if not single:
+            subs.append((W.now, 101, 'foreign'))
+            await vt.call(b.map, [101])
         if use_wait:
             before = set(x for _, x, k in subs if k == 'foreign' and x < 200)
 
@@ -187,9 +202,9 @@ def judge(prop, R):
     return sorted(set(devs))
 
 
-def scen(prop, d1, d2, dur, fail0, use_wait, cancel, own_first, prio_idx, p1, q1=0, nforeign=1):
+def scen(prop, d1, d2, dur, fail0, use_wait, cancel, own_first, prio_idx, p1, q1=0, nforeign=1, p2=0, tail=0, blk=0, single=False):
     global LAST_INFO, RAW
-    R = scenario(d1, d2, dur, fail0, use_wait, cancel, own_first, prio_idx, p1, q1, nforeign)
+    R = scenario(d1, d2, dur, fail0, use_wait, cancel, own_first, prio_idx, p1, q1, nforeign, p2, tail, blk, single)
     RAW = R
     devs = judge(prop, R)
     if not tracing():
@@ -231,10 +246,24 @@ def cells(prop, tier):
                                     pre=[pre, '0 <= d2 <= 2 and 0 <= p1 <= 130'],
                                     body='H.scen(%r, d1, d2, dur, fail0, %r, %r, %r, %d, p1)' % (prop, uw, cancel, own, pr),
                                     tier='thorough', timeout=4000, family=lp + '_foreign', weight=5))
+    if uw:
+        # the buffer's loop is busy with synchronous work when the running call ends; the foreign thread submits during that work and waits
+        for cancel in (True, False):
+            out.append(Cell(name='%s_foreign_busy_loop_cancel%d' % (lp, cancel), sig='d1: int, d2: int, tail: int, blk: int, prio_idx: int',
+                            pre=['10 <= d1 <= 16 and 0 <= d2 <= 6 and 1 <= tail <= 3 and 1 <= blk <= 6 and 0 <= prio_idx <= 1'],
+                            body='H.scen(%r, d1, d2, 1, False, True, %r, True, prio_idx, 0, 0, 1, 0, tail, blk, True)' % (prop, cancel),
+                            tier=q, timeout=900, family=lp + '_foreign', weight=4))
     if tier != 'thorough':
         out = [c for c in out if c.tier == 'quick']
     out.append(Cell(name='twin_%s_foreign' % lp, sig='d1: int, p1: int', pre=['0 <= d1 <= 14 and 0 <= p1 <= 3'],
                     body='H.twin(%r, d1, p1)' % prop, expect='refute', timeout=300, family=lp + '_foreign'))
+    if tier == 'thorough' and uw:
+        # two pre-emptions around the instant the running invocation ends (foreign submission at that very instant)
+        for lo in range(1, 100, 12):
+            out.append(Cell(name='%s_foreign_k2_p%02d' % (lp, lo), sig='d1: int, d2: int, p1: int, p2: int, prio_idx: int',
+                            pre=['11 <= d1 <= 12 and d1 + d2 == 12 and %d <= p1 <= %d and p1 < p2 <= p1 + 45 and 0 <= prio_idx <= 1' % (lo, lo + 11)],
+                            body='H.scen(%r, d1, d2, 2, False, True, True, True, prio_idx, p1, 0, 1, p2)' % prop,
+                            tier='thorough', timeout=6000, family=lp + '_foreign', weight=5))
     if tier == 'thorough':
         for pr in range(6):
             out.append(Cell(name='%s_foreign2_prio%d' % (lp, pr), sig='d1: int, d2: int, dur: int, fail0: bool, cancel: bool, p1: int, q1: int',
